@@ -236,7 +236,7 @@ func init() {
 		})
 
 		c.Group("C01/save-before-advance", "(shared with C02) order across restarts and hand-overs rests on the stored window: memory never advances past a window that was not stored first", func() { ruleSaveBeforeAdvance(c) })
-		c.Group("C01/overflow-carry", "(shared with C05) the global estimate's logical part is set back only together with an advance of its physical part", func() { ruleOverflowCarry(c) })
+		c.Group("C01/overflow-carry", "(shared with C05) the global estimate's logical part is set back only together with an advance of its physical part", func() { ruleOverflowCarry(c); ruleOverflowVetted(c) })
 		c.Group("C01/window-txn", "(shared with C02/C03) the window is written by one leader-guarded transaction and remembered only when applied", func() { ruleSaveTimestampShape(c) })
 		c.Group("C01/client", "client-side batch expansion: response count must equal the batch size; the first logical is derived with the same suffix-aware shift used to fan out; the fallback detector panics on tsLessEqual and otherwise stores the new highest", func() {
 			proc := P.Method("client", "client", "processTSORequests")
@@ -605,4 +605,38 @@ func ruleGenerateReturnsHighest(c *Ctx) {
 	if k == 0 {
 		c.Undec(rule, "returns of "+fnName(fn), "a returned logical value", "", "")
 	}
+	// the physical part returned with it is read in the same critical section (a separate read lets an
+	// advance of the physical time slip in between: old physical with a freshly reset logical)
+	physical := P.Field(tso, "tsoObject", "physical")
+	mu := P.Field(tso, "tsoObject", "RWMutex")
+	okPhys, nPhys := true, 0
+	seenP := map[ssa.Value]bool{}
+	for _, b := range fn.Blocks {
+		r, ok := b.Instrs[len(b.Instrs)-1].(*ssa.Return)
+		if !ok || len(r.Results) < 2 {
+			continue
+		}
+		for _, alt := range valueAlternatives(retVal(r, 0), 4) {
+			if isConstInt(0)(alt) || seenP[strip(alt)] {
+				continue
+			}
+			seenP[strip(alt)] = true
+			nPhys++
+			direct := false
+			derivesFrom(alt, func(v ssa.Value) bool {
+				if isLoadOf(v, physical) {
+					if ins, isI := v.(ssa.Instruction); isI {
+						if held, _ := heldAt(P, ins, mu, true); held {
+							direct = true
+						}
+					}
+				}
+				return false
+			}, 8)
+			if !direct {
+				okPhys = false
+			}
+		}
+	}
+	c.Check(okPhys && nPhys > 0, rule, "returned physical of "+fnName(fn), "read from the TSO in generateTSO itself while it holds the write lock under which the logical part is advanced", P.pos(fn.Pos()), "")
 }
